@@ -50,7 +50,7 @@ def fixerOfJson (j : Json) : Except String Fixer := do
 def msgToJson : Msg → Json
   | .dup n p => arr [Json.str "dup", str n, nat p]
   | .missingRow r => arr [Json.str "missing", nat r]
-  | .illegal v => arr [Json.str "illegal", str v]
+  | .illegal v x => arr [Json.str "illegal", str v, str x]
 
 def fixerToJson (f : Fixer) : Json :=
   Json.mkObj [("errors", nat f.errors), ("warnings", nat f.warnings), ("msgs", arr (f.msgs.map msgToJson))]
